@@ -3,7 +3,7 @@ import types
 import vlib
 
 ID = 'C08'
-LEAN_MODULES = ['TboxModel.C08.Props']
+LEAN_MODULES = ['TboxModel.C08.Props', 'TboxModel.C08.PropsExt']
 EXE = 'c08'
 THEOREMS = [
     'Tbox.C08.C08_cab_freelist', 'Tbox.C08.C08_cab_alloc_never_throws', 'Tbox.C08.C08_cab_lookup',
@@ -15,9 +15,14 @@ THEOREMS = [
     'Tbox.C08.C08_tok_roundtrip', 'Tbox.C08.C08_tok_null', 'Tbox.C08.C08_tok_order', 'Tbox.C08.C08_tok_hash',
     'Tbox.C08.C08_cab_bulk_alloc', 'Tbox.C08.C08_cab_bulk_free', 'Tbox.C08.C08_cab_array_refines', 'Tbox.C08.C08_cab_jump',
     'Tbox.C08.C08_pool_bulk',
+    'Tbox.C08.C08_fd_no_use_after_close', 'Tbox.C08.C08_fd_close_all_copies', 'Tbox.C08.C08_fd_io', 'Tbox.C08.C08_fd_open', 'Tbox.C08.C08_fd_empty_source',
+    'Tbox.C08.C08_fd_flags', 'Tbox.C08.C08_fd_flags_frame', 'Tbox.C08.C08_fd_cloexec_counterexample',
+    'Tbox.C08.C08_cab_alloc_bad_alloc', 'Tbox.C08.C08_pool_ctor_throw', 'Tbox.C08.C08_pool_ctor_throw_leak_counterexample',
+    'Tbox.C08.C08_lt_watcher_copy', 'Tbox.C08.C08_lt_watcher_move', 'Tbox.C08.C08_lt_watcher_bind', 'Tbox.C08.C08_lt_tag_copy', 'Tbox.C08.C08_lt_outlive',
 ]
 SOURCES = ['modules/util/fd.cpp'] + vlib.BASE_SOURCES
 FLAVOUR = 'asan'
+LIBS = ['-ldl']
 BATCH = 200
 SHRINK_TESTS = 200
 MAX_REPORT = 3
@@ -31,13 +36,24 @@ TRUSTED = [
     'LifetimeTag: Detail* is an index into a heap list; a deleted record is recognised on the implementation side by ASan poisoning (quarantine)',
     'the driver executes the cabinet over an Array (lean/TboxModel/C08/Fast.lean, CabA); C08_cab_array_refines proves every CabA function equal to the list model, '
     'so the answers to the bulk ops (70 000+ live entries) are runs of the model, not of a second model; digests (count, first failing index, checksum) are driver/harness glue',
-    'op `cab jump v` writes Cabinet::last_id_ directly (harness compiled with private->public) to reach ids near 2^64; C08_cab_jump shows the state is consistent',
+    'op `cab jump v` writes Cabinet::last_id_ directly (harness compiled with private->public) to reach ids near 2^16/2^31/2^32/2^48/2^63/2^64; C08_cab_jump shows the state is consistent',
+    'Fd kernel model: a descriptor number is open from the open that produced it until its one close; each descriptor has its own open file description (the harness opens /dev/null per descriptor) '
+    'with O_NONBLOCK and its own FD_CLOEXEC; fcntl on a number that is not open returns -1; read/readv/write/writev answers for open descriptors are oracle inputs taken from the op file',
+    'the harness interposes close, fcntl, open, read, readv, write, writev (definitions in the executable, real ones via RTLD_NEXT): calls made inside an `fd` op are recorded with the label of the descriptor '
+    '(M sys=...), a call on a non-negative number that is not an open descriptor of the harness is counted in the P field `stale`, closes are logged when they happen, the kernel flags printed in `fl=` are read back with the real fcntl',
+    '::close results are discarded by the code (fd.cpp:58,98), so the model step does not take them; `fd closefail n e` makes the next n interposed closes really close and then return -1/EINTR|EIO',
+    'the harness replaces the global operator new/delete (malloc/free underneath) so that `cab allocfail` can make the vector growth inside Cabinet::alloc throw bad_alloc (capacity forced to size with shrink_to_fit first); '
+    'which of allocId()/allocPos() ran first is compiler-specific: M line `lastid`, theorem covers both orders',
+    '`pool allocthrow`: the probe constructor throws; the lost block is not observable on the implementation side (no leak detector in the run): the P line carries the counters, the statistics and the later reuse pattern',
 ]
 ASSUMPTIONS = ['fewer than 2^64-1 allocations on one Cabinet (id wrap-around excluded: hypothesis `wrapped = false` of the cabinet theorems; '
                'the bulk theorems carry it as `last_id_ + n <= 2^64-1`); the wrap itself is executed on both sides via `cab jump` and agrees with C08_cab_wrap_counterexample',
                'cell positions fit size_t (a std::vector cannot be larger); token positions/ids beyond 2^16, 2^32, 2^48 need no hypothesis (C08_tok_roundtrip)',
                'ObjectPool::free is only called with live objects of the same pool (API contract)',
-               'malloc does not fail', 'ObjectPool::free of a pointer twice / of a foreign pointer is outside the contract and not modelled',
+               'malloc inside ObjectPool::alloc does not fail (the code asserts and aborts in debug builds, dereferences null with NDEBUG); operator new inside Cabinet::alloc MAY fail (modelled)',
+               'fewer than 2^31 copies of one Fd (ref_count is an int; C08_fd_refcount: ref_count = number of handles; 2^31 handle objects need 32 GiB)',
+               'descriptor numbers handed to Fd(int) are not closed by anybody else while a handle holds them',
+               'ObjectPool::free of a pointer twice / of a foreign pointer is outside the contract and not modelled',
                'a foreach callback that allocates on every invocation is bounded by the initial cell count (code after patches/C08-02)']
 RULE = ('op histories over one Cabinet<int> (tokens retained for the whole history and re-queried with `scan`), one ObjectPool<Probe> (probe constructors/destructors run nested alloc/free scripts on the same pool) '
         'with 16 user slots and retention limits {0,1,2,3,5,16,max}, 8 Fd handles on real descriptors dup()ed from a pipe (also invalid numbers and empty close functions), and 4 LifetimeTag + 6 Watcher slots; '
@@ -45,6 +61,8 @@ RULE = ('op histories over one Cabinet<int> (tokens retained for the whole histo
         'pools with up to 70 000 objects alive at once beyond any retention limit; Token values built from arbitrary size_t pairs at the boundaries 2^8, 2^16, 2^32, 2^48, 2^56, 2^63, 2^64-1; '
         'non-trivial = the model run queries a stale token whose cell has been reused, or removes during foreach, or reuses a parked '
         'pool block after a release, or closes a descriptor through the last of several copies, or lets watchers outlive their tag / frees a tag record through its last watcher, '
+        'or makes a kernel-facing Fd call through a copy after close() on another copy, sets FD_CLOEXEC on a non-blocking descriptor, fails an Open, lets Cabinet::alloc fail with bad_alloc, lets a pooled constructor throw, '
+        'carries the id counter across 2^16/2^31/2^32/2^63, uses a retention limit >= 2^31, re-enters the cabinet read-only (nested foreach / size / reserve) from a callback, '
         'or holds more than 2^16 cells, or parks beyond the retention limit in a bulk run, or builds a token with a position >= 2^16 / id >= 2^48; distinct = distinct op text')
 
 
@@ -83,6 +101,7 @@ class CabGen:
     """keeps a rough picture of which issued tokens are live so that most ops are meaningful"""
     def __init__(self, rng, target):
         self.rng, self.target = rng, target
+        self.faults = rng.random() < 0.5      # histories with failing allocations
         self.n = 0            # tokens issued
         self.live = []        # indices believed live
         self.ops = []
@@ -97,6 +116,10 @@ class CabGen:
         o = self.rng.choice([0, 1, 2, 999, self.rng.randrange(1000)]) if self.rng.random() < 0.1 else self.rng.randrange(1, 1000)
         self.ops.append('cab alloc %d' % o); self.live.append(self.n); self.n += 1
 
+    def allocfail(self):
+        # the token index is consumed either way (a null token when the call failed)
+        self.ops.append('cab allocfail %d' % self.rng.randrange(1, 1000)); self.n += 1
+
     def free(self, i):
         self.ops.append('cab free %d' % i)
         if i in self.live: self.live.remove(i)
@@ -104,7 +127,9 @@ class CabGen:
     def step(self, scan_p=0.03):
         r = self.rng; x = r.random()
         grow = len(self.live) < self.target
-        if x < (0.42 if grow else 0.22) or self.n == 0:
+        if self.faults and r.random() < 0.04:
+            self.allocfail()
+        elif x < (0.42 if grow else 0.22) or self.n == 0:
             self.alloc()
         elif x < 0.60:
             if self.live and r.random() < 0.85:
@@ -139,8 +164,11 @@ class CabGen:
                     for _ in range(r.choice([1, 1, 2, 9, 40]) if mode > 0.9 else 1):
                         items.append('%d:a%d' % (inv, r.randrange(1, 1000)))
                         if inv == 0 and had_live: sure += 1
-                elif y < 0.93:
+                elif y < 0.88:
                     items.append('%d:u%d.%d' % (inv, self.any_tok(), r.randrange(1000)))
+                elif y < 0.93:
+                    # re-entrant calls that leave the entries alone: nested foreach, size()/empty(), reserve (moves the cells)
+                    items.append('%d:%s' % (inv, r.choice(['n', 's', 'r%d' % r.choice([0, 1, 64, 5000])])))
                 else:
                     items.append('%d:c' % inv); cleared = True
             self.ops.append('cab each %s' % (','.join(items) or '-'))
@@ -190,14 +218,21 @@ def ptree(rng, live, depth):
     return toks
 
 
+KEEP_WIDE = ['2147483647', '2147483648', '4294967295', '4294967296', '4294967297', '9223372036854775808', '18446744073709551614']
+
+
 def gen_pool(rng, nops):
-    ops = ['pool new %s' % rng.choice(['0', '1', '2', '3', '5', '16', 'max'])]
+    # retention limits on both sides of 2^31 / 2^32 / 2^63: a limit held in a narrower field would park nothing (or everything)
+    ops = ['pool new %s' % rng.choice(['0', '1', '2', '3', '5', '16', 'max'] + ([rng.choice(KEEP_WIDE)] if rng.random() < 0.3 else []))]
     live = set()
     for _ in range(nops):
         x = rng.random()
         if rng.random() < 0.35:
             ops.append('pool x ' + ' '.join(ptree(rng, live, 0))); continue
-        if x < 0.45:
+        if x < 0.04:
+            # a constructor that throws: the slot stays empty, the block it had taken is gone
+            ops.append('pool allocthrow %d %d' % (rng.randrange(16), rng.randrange(1000000)))
+        elif x < 0.45:
             h = rng.randrange(16) if rng.random() < 0.8 or len(live) == 16 else rng.choice([s for s in range(16) if s not in live])
             ops.append('pool alloc %d %d' % (h, rng.randrange(1000000))); live.add(h)
         elif x < 0.90:
@@ -213,11 +248,25 @@ def gen_pool(rng, nops):
     return ops
 
 
+IO_ANS = ['0', '1', '7', '8', '99999', 'eintr', 'eagain', 'eio', 'epipe', 'enospc']
+
+
 def gen_fd(rng, nops):
     ops = []; opened = 0
     nslots = rng.choice([2, 3, 8])
+    kernel = rng.random() < 0.7          # also the members that talk to the kernel
     for _ in range(nops):
         a = rng.randrange(nslots); b = rng.randrange(nslots); x = rng.random()
+        if kernel and rng.random() < 0.3:
+            y = rng.random()
+            if y < 0.25: ops.append('fd io %d %s %s' % (a, rng.choice(['read', 'readv', 'write', 'writev']), rng.choice(IO_ANS)))
+            elif y < 0.50: ops.append('fd nonblock %d %d' % (a, rng.randrange(2)))
+            elif y < 0.65: ops.append('fd isnb %d' % a)
+            elif y < 0.83: ops.append('fd cloexec %d' % a)
+            elif y < 0.93 and opened < 190:
+                k = rng.choice(['ok', 'ok', 'ok', 'enoent', 'emfile']); ops.append('fd fopen %d %s' % (a, k)); opened += k == 'ok'
+            else: ops.append('fd closefail %d %s' % (rng.choice([1, 1, 2, 5]), rng.choice(['eintr', 'eio'])))
+            continue
         if x < 0.16 and opened < 190:
             if rng.random() < 0.12:
                 ops.append('fd openneg %d %d %s' % (a, rng.randrange(3), rng.choice(['fn', 'raw'])))
@@ -314,7 +363,7 @@ def gen_bulk(rng, n, pre=0):
     for _ in range(pre):
         g.step(0.0)
     ops = [o for o in g.ops if not o.startswith('cab each')]      # (the issued-token count must stay exact)
-    t0 = sum(1 for o in ops if o.startswith('cab alloc'))
+    t0 = sum(1 for o in ops if o.startswith('cab alloc'))         # (`cab allocfail` issues an index as well)
     o0 = rng.randrange(1000)
     ops += ['cab bulk alloc %d %d' % (n, o0), 'cab size', 'cab bulk at 0 %d' % (t0 + n), 'cab bulk distinct']
     tot = t0 + n
@@ -337,11 +386,25 @@ def gen_bulk(rng, n, pre=0):
     return ops
 
 
+JUMP_B = [2**15, 2**16, 2**31, 2**32, 2**48, 2**63]
+
+
 def gen_jump(rng):
-    """ids near 2^64: the counter is put just below the maximum; the wrap (id 0 skipped, ids re-issued from 1)
-    is the stated hypothesis of the theorems - both sides must still agree on it"""
+    """the id counter is put just below a width boundary (2^15 .. 2^63: a narrower id field would wrap there) or below
+    2^64-1, then allocations carry it across; tokens issued before and after are re-queried.  Only the wrap at 2^64 is
+    the stated hypothesis of the theorems - both sides must still agree on it"""
     k = rng.randrange(1, 5)
     ops = ['cab alloc %d' % (i + 1) for i in range(k)] + ['cab free 0']
+    if rng.random() < 0.6:
+        b = rng.choice(JUMP_B)
+        ops += ['cab jump %d' % (b - 1 - rng.randrange(0, 3))]
+        n0 = k
+        for _ in range(rng.randrange(3, 9)):
+            ops.append(rng.choice(['cab alloc 9', 'cab alloc 8', 'cab alloc 7', 'cab free %d' % rng.randrange(k + 3), 'cab at %d' % rng.randrange(k),
+                                   'cab scan', 'cab bulk alloc 4 1', 'cab allocfail 3']))
+        # forged tokens with the truncated ids: a field narrower than size_t would make them match
+        ops += ['cab scan', 'cab bulk distinct', 'cab atraw %d 0' % b, 'cab atraw %d 0' % (b + 1), 'cab atraw 1 0', 'cab atraw 1 1', 'cab atraw 2 1', 'cab atraw %d 1' % (b + 2), 'cab size']
+        return ops
     ops += ['cab jump %d' % (2**64 - 1 - rng.randrange(0, 4))]
     for _ in range(rng.randrange(2, 8)):
         ops.append(rng.choice(['cab alloc 9', 'cab alloc 8', 'cab free %d' % rng.randrange(k), 'cab at 0', 'cab scan', 'cab size', 'cab bulk alloc 5 1']))
@@ -356,14 +419,14 @@ def gen_pool_bulk(rng, n):
 
 
 MALFORMED = ['cab', 'cab alloc', 'cab alloc 1000', 'cab alloc x', 'cab at 0', 'cab free 5', 'cab each 0:0', 'cab frob', 'cab atraw 1',
-             'pool alloc 16 1', 'pool alloc 0', 'pool free 99', 'pool new -1', 'pool new', 'pool drop', 'pool drop x', 'fd open 8 fn', 'fd open 0 xx', 'fd cpc 1 1',
+             'pool alloc 16 1', 'pool alloc 0', 'pool free 99', 'pool new -1', 'pool new', 'pool allocthrow 16 1', 'pool allocthrow 0', 'pool allocthrow 0 1000000', 'pool allocthrow 0 5', 'pool new 18446744073709551616', 'pool drop 18446744073709551616', 'pool new 4294967296', 'cab allocfail', 'cab allocfail 1000', 'cab allocfail 5', 'cab each 0:n,0:s,0:r5', 'cab each 0:r', 'cab each 0:r100000', 'cab each 0:nn', 'pool drop', 'pool drop x', 'fd open 8 fn', 'fd open 0 xx', 'fd cpc 1 1',
              'fd mvc 2 2', 'fd swap 0', 'fd close 9', 'frob 1', 'cab alloc 5', 'cab each 0:0,', 'cab each 0:1', 'cab each 0;0', 'cab each 0:0', 'cab each 0:a', 'cab each 0:a1000', 'cab each 0:u0', 'cab each 0:u0.1.2', 'cab each 0:cc', 'cab each 0:u9.1',
              'cab upd 0 1000', 'cab at 00', 'cab at 1', 'cab clear now', 'fd', 'pool', 'lt', 'lt tnew 4', 'lt wnew 6', 'lt wcpc 1 1', 'lt tcpc 0 0', 'lt wtag 0', 'lt frob 0', 'lt wtag 6 0',
              'tok', 'tok mk', 'tok mk 1', 'tok mk 18446744073709551616 0', 'tok mk 0 18446744073709551616', 'tok mk 18446744073709551615 18446744073709551615',
              'tok mk 00000000000000000001 1', 'tok mk 000000000000000000001 1', 'tok mk 1_0 1', 'tok mk -1 1', 'tok cmp 1 2 3', 'tok set 1', 'tok set 1 2 3', 'tok set', 'tok reset 1', 'tok frob',
              'cab atraw 18446744073709551616 0', 'cab atraw 18446744073709551615 18446744073709551615', 'cab jump', 'cab jump 18446744073709551616', 'cab bulk', 'cab bulk alloc 400001 1', 'cab bulk alloc 3 1000',
              'cab bulk at 0 1', 'cab bulk free 0 0 0 0 up', 'cab bulk free 0 0 1 1 up', 'cab bulk free 0 0 1 0 sideways', 'cab bulk free 0 0 1 0 up', 'cab bulk distinct', 'cab bulk distinct 1',
-             'pool bulk 3 max 4', 'pool bulk 3 x 1', 'pool bulk 400001 1 1', 'pool bulk 0 0 0', 'fd open 0 nullfn', 'fd openneg 0 3 fn', 'fd openneg 0 0 xx', 'fd openneg 8 0 fn', 'fd openneg 1 2 raw', 'fd new 0', 'fd new 1',
+             'pool bulk 3 max 4', 'pool bulk 3 x 1', 'pool bulk 400001 1 1', 'pool bulk 0 0 0', 'fd open 0 nullfn', 'fd io 0 read', 'fd io 0 peek 1', 'fd io 0 read -1', 'fd io 0 read 100000', 'fd io 8 read 1', 'fd nonblock 0 2', 'fd nonblock 0', 'fd isnb 8', 'fd cloexec', 'fd fopen 0 maybe', 'fd fopen 8 ok', 'fd closefail 1 enospc', 'fd closefail 100 eio', 'fd closefail 1 eio', 'fd io 0 read eintr', 'fd openneg 0 3 fn', 'fd openneg 0 0 xx', 'fd openneg 8 0 fn', 'fd openneg 1 2 raw', 'fd new 0', 'fd new 1',
              'cab alloc 1_0', 'cab alloc 000000000000000001', 'cab alloc 00000000000001', 'cab alloc +1', 'pool new 1_0', 'cab at 0_0']
 
 
@@ -377,6 +440,24 @@ def gen(rng, tier):
            'cab each 0:c,0:a5', 'cab scan', 'cab each ' + ','.join('0:a%d' % (10 + i) for i in range(40)), 'cab scan', 'cab each 1:c', 'cab size']
     yield ['cab alloc 1', 'cab alloc 2', 'cab alloc 3', 'cab alloc 4', 'cab each 0:0,1:2,3:1', 'cab scan', 'cab alloc 7', 'cab alloc 8',
            'cab alloc 9', 'cab scan', 'cab each 0:5,0:4,0:6', 'cab size']
+    # allocation failures (push_back throws bad_alloc): on an empty cabinet, after growth, with a free cell (no allocation, succeeds),
+    # after clear, from a cabinet whose callbacks re-enter; everything issued before must resolve as before
+    yield ['cab allocfail 5', 'cab size', 'cab alloc 1', 'cab alloc 2', 'cab allocfail 3', 'cab scan', 'cab size', 'cab free 1', 'cab allocfail 4', 'cab scan', 'cab allocfail 6',
+           'cab each 0:a9,0:n,1:r64,1:s', 'cab allocfail 7', 'cab scan', 'cab clear', 'cab allocfail 8', 'cab alloc 9', 'cab scan', 'cab each -', 'cab size']
+    # every re-entrant call from inside a foreach callback: alloc (reuse / growth), free self / later / earlier / stale, update, clear,
+    # reserve (moves the cells), size(), a nested foreach
+    yield ['cab alloc 1', 'cab alloc 2', 'cab alloc 3', 'cab alloc 4', 'cab each 0:n,0:s,0:r5000,1:n,2:r0,3:s', 'cab each 0:r5000,0:a5,0:n,1:1,1:n,2:c,2:n,2:a6,2:s', 'cab scan', 'cab each 0:n', 'cab size',
+           'cab each 0:0,0:n,0:a7,0:n,0:u2.9,0:n', 'cab scan']
+    # constructors that throw: with an empty chain (malloc), with parked blocks (the head is consumed), on a busy slot, then reuse / re-entrant calls
+    yield ['pool new 2', 'pool allocthrow 0 1', 'pool alloc 0 2', 'pool alloc 1 3', 'pool free 0', 'pool free 1', 'pool allocthrow 0 4', 'pool stat', 'pool alloc 0 5', 'pool alloc 1 6',
+           'pool alloc 2 7', 'pool allocthrow 1 8', 'pool free 0', 'pool allocthrow 0 9', 'pool allocthrow 0 9', 'pool allocthrow 0 9', 'pool x A 3 1 A 4 2 a a F 3 F 4 f f', 'pool stat', 'pool new 0', 'pool allocthrow 0 1', 'pool stat']
+    # retention limits beyond 32 bits
+    yield ['pool new 4294967296', 'pool alloc 0 1', 'pool alloc 1 2', 'pool free 0', 'pool free 1', 'pool alloc 2 3', 'pool stat', 'pool new 2147483648', 'pool alloc 0 1', 'pool free 0', 'pool alloc 1 2',
+           'pool drop 18446744073709551614', 'pool alloc 0 1', 'pool free 0', 'pool stat', 'pool new 4294967297', 'pool x A 0 1 A 1 2 a a F 0 F 1 f f', 'pool stat']
+    # ids carried across 2^16 / 2^31 / 2^32 / 2^63: tokens issued on both sides stay distinct and resolve
+    for b in JUMP_B:
+        yield ['cab alloc 1', 'cab alloc 2', 'cab jump %d' % (b - 2), 'cab alloc 3', 'cab alloc 4', 'cab alloc 5', 'cab alloc 6', 'cab scan', 'cab free 3', 'cab free 4', 'cab alloc 7', 'cab alloc 8', 'cab scan',
+               'cab bulk distinct', 'cab atraw %d 2' % b, 'cab atraw %d 3' % b, 'cab atraw 0 3', 'cab atraw 1 3', 'cab atraw %d 3' % (b + 1), 'cab size']
     yield ['cab clear', 'cab alloc 0', 'cab at 0', 'cab upd 0 0', 'cab upd 0 5', 'cab at 0', 'cab free 0', 'cab free 0', 'cab clear', 'cab size']
     yield ['pool new 1', 'pool alloc 0 10', 'pool alloc 1 11', 'pool free 0', 'pool free 1', 'pool alloc 2 12', 'pool alloc 3 13',
            'pool alloc 3 14', 'pool free 5', 'pool stat', 'pool new 0', 'pool alloc 0 1', 'pool free 0', 'pool alloc 0 2',
@@ -390,6 +471,19 @@ def gen(rng, tier):
            'pool x A 0 1 a a', 'pool x A 0 1 a', 'pool x ' + 'A 0 1 ' * 17 + 'a ' * 17, 'pool x ' + 'A 0 1 ' * 16 + 'a ' * 16, 'pool stat']
     yield ['fd open 0 fn', 'fd cpa 1 0', 'fd cpa 1 0', 'fd cpa 0 0', 'fd mva 0 0', 'fd cpc 2 1', 'fd reset 0', 'fd close 1', 'fd close 2',
            'fd reset 1', 'fd reset 2', 'fd open 3 raw', 'fd mvc 4 3', 'fd swap 4 4', 'fd swap 3 4', 'fd mva 3 3', 'fd new 3', 'fd new 4']
+    # the kernel-facing members: close() through one copy then every member through the other copies (the number must
+    # never reach the kernel again), flags on shared / separate descriptors, setCloseOnExec on a non-blocking descriptor
+    # (patches/C08-05), every member on empty / moved-from / failed-Open handles, ::close failing with EINTR / EIO
+    yield ['fd open 0 raw', 'fd cpc 1 0', 'fd mvc 2 1', 'fd nonblock 2 1', 'fd isnb 0', 'fd cloexec 0', 'fd isnb 2', 'fd close 0', 'fd isnb 2', 'fd io 2 read 5',
+           'fd io 2 write eio', 'fd nonblock 2 0', 'fd nonblock 2 1', 'fd cloexec 2', 'fd open 3 fn', 'fd io 3 readv 3', 'fd io 2 writev 1', 'fd close 2', 'fd new 0', 'fd new 2',
+           'fd io 1 read 1', 'fd isnb 1', 'fd nonblock 1 1', 'fd cloexec 1', 'fd io 3 write eagain', 'fd new 3']
+    yield ['fd open 0 raw', 'fd open 1 fn', 'fd nonblock 0 1', 'fd nonblock 0 1', 'fd cloexec 0', 'fd cloexec 0', 'fd isnb 0', 'fd isnb 1', 'fd nonblock 1 0', 'fd cloexec 1',
+           'fd nonblock 1 1', 'fd isnb 1', 'fd nonblock 0 0', 'fd isnb 0', 'fd isnb 1', 'fd new 0', 'fd new 1']
+    yield ['fd fopen 0 ok', 'fd fopen 1 enoent', 'fd fopen 2 emfile', 'fd io 1 read 3', 'fd io 2 writev 3', 'fd isnb 1', 'fd nonblock 1 1', 'fd cloexec 2', 'fd close 1', 'fd reset 2',
+           'fd cpa 0 1', 'fd fopen 0 ok', 'fd mva 0 2', 'fd fopen 0 ok', 'fd cpc 3 1', 'fd mvc 4 2', 'fd swap 0 1', 'fd swap 1 2', 'fd io 2 read 0', 'fd fopen 2 enoent', 'fd fopen 0 ok',
+           'fd cpc 5 0', 'fd fopen 0 emfile', 'fd io 5 write 8', 'fd new 5', 'fd new 0']
+    yield ['fd open 0 raw', 'fd closefail 1 eintr', 'fd close 0', 'fd close 0', 'fd new 0', 'fd open 0 raw', 'fd cpc 1 0', 'fd closefail 2 eio', 'fd reset 0', 'fd reset 1',
+           'fd open 2 fn', 'fd closefail 1 eintr', 'fd new 2', 'fd open 3 nullfn', 'fd new 3', 'fd fopen 4 ok', 'fd closefail 5 eintr', 'fd fopen 4 ok', 'fd fopen 4 enoent', 'fd open 5 raw', 'fd mva 5 4', 'fd new 5']
     # LifetimeTag: tag dies first / watchers die first; copies of null watchers; tag copies get their own record
     yield ['lt tnew 0', 'lt wtag 0 0', 'lt wcpc 1 0', 'lt tdel 0', 'lt wreset 0', 'lt wreset 1', 'lt tnew 0', 'lt wset 0 0', 'lt wnew 0', 'lt tdel 0']
     yield ['lt wcpc 1 0', 'lt wcpa 2 3', 'lt wcpa 2 2', 'lt tnew 0', 'lt wget 0 0', 'lt wmvc 1 0', 'lt wcpc 2 0', 'lt wcpa 3 0', 'lt wmva 4 0',
@@ -458,6 +552,15 @@ def gen(rng, tier):
         for L in range(1, 6):
             for seq in itertools.product(alpha, repeat=L):
                 yield list(seq) + ['fd new 0', 'fd new 1']
+        # ... and with the kernel-facing members (length <= 4)
+        alpha = ['fd open 0 raw', 'fd cpa 1 0', 'fd mva 0 1', 'fd close 1', 'fd nonblock 0 1', 'fd cloexec 1', 'fd io 0 read 3', 'fd isnb 1', 'fd fopen 1 enoent', 'fd closefail 1 eintr']
+        for L in range(1, 5):
+            for seq in itertools.product(alpha, repeat=L):
+                yield list(seq) + ['fd isnb 0', 'fd new 0', 'fd new 1']
+        alpha = ['cab alloc 7', 'cab allocfail 8', 'cab free 0', 'cab free 2', 'cab clear', 'cab each 0:n,0:a3']
+        for L in range(1, 6):
+            for seq in itertools.product(alpha, repeat=L):
+                yield ['cab alloc 1'] + list(seq) + ['cab scan', 'cab size']
         alpha = ['A 0 1', 'A 1 2', 'A 2 3', 'a', 'F 0', 'F 1', 'f']
         def nested_ok(seq):
             st = []
@@ -476,7 +579,7 @@ def gen(rng, tier):
                 yield list(seq) + rng.choice([['lt tdel 0', 'lt tdel 1', 'lt wnew 0', 'lt wnew 1'], ['lt wnew 0', 'lt wnew 1', 'lt tdel 0', 'lt tdel 1']])
 
 
-KEY_TAGS = ('bulk-above-2^16', 'bulk-cross-2^16', 'pool-bulk-over-keep', 'from-dead', 'tok-pos>=2^16', 'tok-pos>=2^32', 'tok-pos>=2^48', 'tok-pos>=2^63', 'tok-id>=2^48', 'tok-id>=2^63', 'jump-near-max', 'openneg', 'pool-ctor-alloc-parked', 'pool-dtor-alloc-parked', 'pool-dtor-free', 'pool-drop-live', 'w-last-frees', 't-outlived-by-watchers', 'tok-stale-reused', 'each-removed', 'each-cb-grew', 'pool-reuse', 'rel-last-closes', 'close-shared')
+KEY_TAGS = ('pool-ctor-throw', 'allocfail-throw', 'jump-near-2', 'pool-keep>=2^31', 'each-cb-reentrant-read', 'closed-shared', 'cloexec-open-set-on-nonblocking', 'cloexec-open-shared-set-on-nonblocking', 'fopen-fail', 'io-open', 'setnb-open', 'bulk-above-2^16', 'bulk-cross-2^16', 'pool-bulk-over-keep', 'from-dead', 'tok-pos>=2^16', 'tok-pos>=2^32', 'tok-pos>=2^48', 'tok-pos>=2^63', 'tok-id>=2^48', 'tok-id>=2^63', 'jump-near-max', 'openneg', 'pool-ctor-alloc-parked', 'pool-dtor-alloc-parked', 'pool-dtor-free', 'pool-drop-live', 'w-last-frees', 't-outlived-by-watchers', 'tok-stale-reused', 'each-removed', 'each-cb-grew', 'pool-reuse', 'rel-last-closes', 'close-shared')
 
 
 def nontrivial(ops, model_lines):
@@ -495,7 +598,9 @@ LEVEL_TEXT = ('Lean 4 theorems over hand-written models of Cabinet (intrusive fr
               'foreach with free/alloc/update/clear from inside callbacks; the Token class (round trip of full size_t id/position, order, hash); closed-form bulk theorems '
               '(n allocations: every token resolves to its own object, ids/positions, size; arbitrary subsets freed) for every n; the Array implementation the driver runs proved equal to the model; '
               'pool blocks never handed out while live (also n objects at once beyond any retention limit, for every n), ctor/dtor balance, statistics, retention limit, '
-              'destruction with live objects; Fd reference counts and close-exactly-once; LifetimeTag/Watcher: alive iff the tag exists, record deleted '
+              'destruction with live objects, constructors that throw (invariant kept, block lost: counterexample theorem); Cabinet::alloc failing with bad_alloc in histories (refinement kept, both evaluation orders); '
+              'Fd reference counts and close-exactly-once, no system call on a closed descriptor through any copy, Open, read/write wrappers for every kernel answer, fcntl flag semantics of setNonBlock/isNonBlock/setCloseOnExec (+ counterexample for the F_SETFL defect), operations from empty handles; '
+              'LifetimeTag/Watcher member by member (copy, move, bind, reset, swap, tag copy/assignment, watchers outliving the tag); LifetimeTag/Watcher: alive iff the tag exists, record deleted '
               'exactly once after tag and last watcher, no access to a deleted record in any destruction order; models tied to the headers and fd.cpp on every run by differential execution (ASan+UBSan build of the working tree)')
 LEVEL_NOTE = ('trusted: Lean kernel, hand-written models + differential tie (coverage bounded by the generator, measured in evidence); '
               'real-memory use-after-free is observed by ASan on the implementation side only')
